@@ -78,7 +78,7 @@ RecordHeads(DD, nd, k) ==
     IF DOMAIN nd.heads = {} THEN [ D |-> DD, nd |-> nd ]
     ELSE LET c  == MinOfSet(DOMAIN nd.heads, 0)
              op == nd.heads[c]
-             rest == [ x \in (DOMAIN nd.heads) \ {c} |-> nd.heads[x] ]
+             rest == Without(nd.heads, c)
          IN  IF ~MayCreate(nd)
              THEN RecordHeads(DD, [ nd EXCEPT !.heads = rest ], k)
              ELSE LET e  == EvId(nd.h.me, nd.seq + 1)
@@ -86,28 +86,36 @@ RecordHeads(DD, nd, k) ==
                       nd1 == AddSelfEvent(D1, nd, e)
                   IN  RecordHeads(D1, [ nd1 EXCEPT !.heads = rest ], k + 1)
 
+DeliverOutcome(m) ==
+    LET st == SyncInsert(D, nodes[m.to], m.from, m.evs)
+        creates == ~st.err /\ WantsRecord(st.nd)
+    IN  IF creates THEN RecordHeads(D, st.nd, 0) ELSE [ D |-> D, nd |-> st.nd ]
+
+\* (the outcome is bound once: TLC does not cache LET values inside an action)
 Deliver(m) ==
     /\ m \in msgs
     /\ m.to \notin Silent
-    /\ LET st == SyncInsert(D, nodes[m.to], m.from, m.evs)
-           creates == ~st.err /\ WantsRecord(st.nd)
-           res == IF creates THEN RecordHeads(D, st.nd, 0) ELSE [ D |-> D, nd |-> st.nd ]
-       IN  /\ Cardinality(DOMAIN res.D) <= MaxEvents
-           /\ D' = res.D
-           /\ nodes' = [ nodes EXCEPT ![m.to] = res.nd ]
+    /\ \E res \in { DeliverOutcome(m) } :
+          /\ Cardinality(DOMAIN res.D) <= MaxEvents
+          /\ D' = res.D
+          /\ nodes' = [ nodes EXCEPT ![m.to] = res.nd ]
     /\ msgs' = msgs \ { m }
     /\ UNCHANGED submitted
 
 \* node.monologue: a node alone records its pools
+MonologueOutcome(n) ==
+    LET e  == EvId(n, nodes[n].seq + 1)
+        D1 == Ext(D, e, NewEvent(nodes[n], NoEv, 0))
+    IN  [ D |-> D1, nd |-> AddSelfEvent(D1, nodes[n], e) ]
+
 Monologue(n) ==
     /\ n \notin Silent
     /\ Len(PSAt(nodes[n].h, 0)) = 1
     /\ Busy(nodes[n]) /\ MayCreate(nodes[n])
     /\ Cardinality(DOMAIN D) < MaxEvents
-    /\ LET e  == EvId(n, nodes[n].seq + 1)
-           D1 == Ext(D, e, NewEvent(nodes[n], NoEv, 0))
-       IN  /\ D' = D1
-           /\ nodes' = [ nodes EXCEPT ![n] = AddSelfEvent(D1, nodes[n], e) ]
+    /\ \E res \in { MonologueOutcome(n) } :
+          /\ D' = res.D
+          /\ nodes' = [ nodes EXCEPT ![n] = res.nd ]
     /\ UNCHANGED << msgs, submitted >>
 
 Next ==
